@@ -162,6 +162,20 @@ static Wire c15(Reader& r) {
         o.push_back(0); dump(o,m3);
         return o;
     }
+    case 7: {
+        size_t fmt=r.n(), flags=r.n(), id=r.n(); MeshIn a=getMeshIn(r), b=getMeshIn(r); skipTable(r);
+        if (fmt>3) throw Reader::Malformed();
+        Mesh *m1, *m2;
+        try { m1 = mkmesh(flags,a); m2 = mkmesh(flags,b); } catch (std::exception&) { return Wire{32}; }
+        const std::string f1 = fname("rla",id,fmt), f2 = fname("rlb",id,fmt);
+        try { m1->save(f1); m2->save(f2); } catch (std::exception&) { unlink(f1.c_str()); unlink(f2.c_str()); return Wire{32}; }
+        Mesh fresh, used;
+        try { fresh.load(f2,false); used.load(f1,false); used.load(f2,false); }
+        catch (std::exception&) { unlink(f1.c_str()); unlink(f2.c_str()); return Wire{32}; }
+        unlink(f1.c_str()); unlink(f2.c_str());
+        o.push_back(0); dump(o,fresh); o.push_back(0); dump(o,used);
+        return o;
+    }
     default: throw Reader::Malformed();
     }
 }
